@@ -131,9 +131,12 @@ def flat(prog):
     return prog.gdl().replace("cExtraUnusedPLACEHOLDER", "")
 
 
-def write_files(d, files):
+def write_files(d, files, crlf=False):
     for fn, lines in files.items():
         os.makedirs(os.path.dirname(os.path.join(d, fn)), exist_ok=True)
+        if crlf:
+            open(os.path.join(d, fn), "wb").write(("\r\n".join(lines) + "\r\n").encode())
+            continue
         open(os.path.join(d, fn), "w").write("\n".join(lines) + "\n")
 
 
@@ -172,7 +175,8 @@ def run(tier, seed, replay=None):
             "\ntable(glyph) cOvA {ovattr = 111}; endtable;\ntable(glyph) cOvB {ovattr = 222}; endtable;" if getattr(prog, "c18_override", False) else ""), 1)
         open(os.path.join(d, "flat.gdl"), "w").write(ft)
         files, pos = decompose(crng, prog)
-        write_files(d, files)
+        crlf = (i % 4 == 2)      # DOS line endings in every file of the decomposed spelling
+        write_files(d, files, crlf)
         rc1, log1, _ = common.run_grc(build, d, ["-q", "-e", "flat_err.txt", "flat.gdl", "in.ttf", "flat.ttf"])
         rc2, log2, _ = common.run_grc(build, d, ["-q", "p.gdl", "in.ttf", "out.ttf"])
         stats["pairs"] += 1
@@ -206,7 +210,7 @@ def run(tier, seed, replay=None):
             os.makedirs(sd)
             shutil.copy(os.path.join(d, "in.ttf"), sd)
             shutil.copy(common.STDDEF, sd)
-            write_files(sd, mod)
+            write_files(sd, mod, crlf)
             rc, log, _ = common.run_grc(build, sd, ["-q", "p.gdl", "in.ttf", "out.ttf"])
             err = open(os.path.join(sd, "gdlerr.txt"), errors="replace").read() if os.path.exists(os.path.join(sd, "gdlerr.txt")) else ""
             cites = re.findall(r"^(\S+)\((\d+)\) : error\(\d+\)[^\n]*cUndefSeed", err, flags=re.M)
@@ -237,7 +241,7 @@ def run(tier, seed, replay=None):
             os.makedirs(sd)
             shutil.copy(os.path.join(d, "in.ttf"), sd)
             shutil.copy(common.STDDEF, sd)
-            write_files(sd, mod)
+            write_files(sd, mod, crlf)
             rc, log, _ = common.run_grc(build, sd, ["-q", "p.gdl", "in.ttf", "out.ttf"])
             err = open(os.path.join(sd, "gdlerr.txt"), errors="replace").read() if os.path.exists(os.path.join(sd, "gdlerr.txt")) else ""
             cites = re.findall(r"^(\S+)\((\d+)\) : error\(\d+\): unexpected token", err, flags=re.M)
@@ -270,7 +274,7 @@ def run(tier, seed, replay=None):
             os.makedirs(sd)
             shutil.copy(os.path.join(d, "in.ttf"), sd)
             shutil.copy(common.STDDEF, sd)
-            write_files(sd, mod)
+            write_files(sd, mod, crlf)
             rc, log, _ = common.run_grc(build, sd, ["-q", "p.gdl", "in.ttf", "out.ttf"])
             err = open(os.path.join(sd, "gdlerr.txt"), errors="replace").read() if os.path.exists(os.path.join(sd, "gdlerr.txt")) else ""
             cites = re.findall(r"^(\S+)\((\d+)\) : error\((\d+)\): unexpected token: cSynSeed", err, flags=re.M)
